@@ -7,6 +7,7 @@ import Driver.Broker
 import Driver.Hub
 import Driver.Shutdown
 import Driver.Dot
+import Driver.Crash
 open Driver
 
 /-
@@ -24,5 +25,6 @@ def main (args : List String) : IO UInt32 := do
   | ["hub"] => Driver.HubMode.main
   | ["shutdown"] => runLoop (fun (_ : Unit) toks => ((), shutdownHandler toks)) ()
   | ["dot"] => runLoop Driver.Dot.step ()
+  | ["crash"] => runLoop Driver.CrashMode.step Driver.CrashMode.init
   | _ => IO.eprintln s!"unknown mode {args}"; return 2
   return 0
